@@ -297,6 +297,10 @@ func (r *Run) writeEvidence(violations int) {
 	if len(r.Counters) > 0 {
 		cov["counters"] = r.Counters
 	}
+	if len(r.Stats.Shapes) > 0 {
+		cov["states_by_structural_class"] = r.Stats.Shapes
+		cov["distinct_structural_classes"] = len(r.Stats.Shapes)
+	}
 	ev := map[string]any{
 		"property_id": r.ID,
 		"tier":        r.Tier,
